@@ -116,6 +116,36 @@ PROPS = {
              "the return on x all subsets of pending directory operations.",
         trusted=["the standard abstract persistence model", "strace output and the Go trace parser", T_GO],
     ),
+    "C14": dict(
+        modules=["Whawty.Props.C14"],
+        suites=[("hdrv", "c14")],
+        level_text="add/update_written_record: the installed file is exactly the schema line for the default set, now, "
+                   "salt and digest (plus the old auxiliary lines); it parses back to those fields (proved codec round "
+                   "trips); the bytes depend on the password only through the digest; the YAML-to-parameter mapping is "
+                   "a Lean function whose result is compared with the effective parameters OBSERVED from written digests "
+                   "(candidate search with x/crypto). Stores are built with store.NewDirFromConfig from generated YAML.",
+        rule="Generated YAML configurations (scrypt cost 1-6 (thorough: up to 12), r absent/0/1/8/16, p absent/0/1/2, "
+             "argon2id time 1-3, memory 8..1024, threads 1-4, length 4..64; 1-4 sets, any default, default switched "
+             "between writes); 4-9 writes each with high-entropy passwords; per write: shape, default id, time window, "
+             "salt size, salt freshness, digest vs x/crypto oracle from the YAML values, observed effective parameters, "
+             "search for passwords and HMAC keys (raw, base64 std/url/raw, hex) in every file of the directory.",
+        trusted=[T_CRYPTO, "yaml.v3", T_FS],
+        partial=["freshness / unpredictability of salts (crypto/rand) is observed (pairwise distinct within a run), not proved"],
+    ),
+    "C18": dict(
+        modules=["Whawty.Props.C18"],
+        suites=[("hdrv", "c18")],
+        level_text="loader_exact: the model of fromConfig accepts exactly the well-formed decoded configurations; accepted "
+                   "argon2id / scrypt sets lie inside the primitives' domains (repaired constructor). Generated YAML "
+                   "documents (mutations of valid ones) are loaded with store.NewDirFromConfig and compared with the "
+                   "model on the harness's own strict decoding; accepted sets are exercised (hash + verify) under recover.",
+        rule="Documents derived from valid ones by 0-3 mutations: field deletion, duplication, type change, unknown keys at "
+             "three levels, numeric edge values (0,1,31,32,255,256,2^32-1,2^32,2^64-1,2^64,-1,1.5,strings,lists,maps), "
+             "both/no algorithm, HMAC key variants, duplicate ids and top-level keys, default 0/missing/undefined.",
+        trusted=["yaml.v3 (KnownFields) decides decodability: modelled as an interface", T_CRYPTO],
+        partial=["reload all-or-nothing (SIGHUP) is decided by the agent harness (section C18 reload), see suite agent-c18",
+                 "memory exhaustion for huge cost/memory values is a run-time fact outside the model"],
+    ),
     "C15": dict(
         modules=["Whawty.Props.C15"],
         suites=[("hdrv", "c15ro"), ("hdrv", "c15f"), ("hdrv", "c01")],
